@@ -23,11 +23,11 @@ def run(prop, tier, seed):
     t = TIERS[tier]
     c = common.Check(prop, tier, seed, "model_checking")
     cfg = os.path.join(c.work, "MC_Filestore.cfg")
-    with open("/verif/spec/mc/MC_Filestore.cfg") as f:
+    with open(common.VERIF + "/spec/mc/MC_Filestore.cfg") as f:
         text = f.read().replace("CONSTANT Depth = 2", "CONSTANT Depth = %d" % t["Depth"])
     with open(cfg, "w") as f:
         f.write(text)
-    r = tlc.run("/verif/spec/mc/MC_Filestore.tla", cfg, os.path.join(c.work, "tlc"), workers=4, timeout=3600)
+    r = tlc.run(common.VERIF + "/spec/mc/MC_Filestore.tla", cfg, os.path.join(c.work, "tlc"), workers=4, timeout=3600)
     if r.violated:
         raise common.ToolError("Filestore.tla violates its own law %s: the specification is wrong" % r.violated)
     edges = []
